@@ -457,6 +457,96 @@ func TestVerifC13Addresser(t *testing.T) {
 		out.Emit(c)
 	}
 
+	// ---- (9) the real transport, two interfaces, dumps really at the same time (several threads inside one private
+	// network namespace): every caller gets the addresses of ITS interface
+	if out.Wants("c13sys-netns-concurrent") {
+		c := verifh.Case{ID: "c13sys-netns-concurrent", Tags: []string{"stream:netns-concurrent"}, Input: map[string]any{"kind": "netns-concurrent"}}
+		res := make(chan string, 1)
+		go func() {
+			runtime.LockOSThread()
+			if err := syscall.Unshare(syscall.CLONE_NEWNET); err != nil {
+				res <- "unavailable: " + err.Error()
+				return
+			}
+			ip := func(arg ...string) error {
+				bin, err := exec.LookPath("ip")
+				if err != nil {
+					return err
+				}
+				if out, err := exec.Command(bin, arg...).CombinedOutput(); err != nil {
+					return fmt.Errorf("ip %v: %v: %s", arg, err, out)
+				}
+				return nil
+			}
+			for _, a := range [][]string{{"link", "set", "lo", "up"}, {"link", "add", "vca", "type", "veth", "peer", "name", "vcb"}, {"link", "set", "vca", "up"}, {"link", "set", "vcb", "up"},
+				{"-6", "addr", "add", "2001:db8:ca::1/64", "dev", "vca", "nodad"}, {"-6", "addr", "add", "2001:db8:cb::1/64", "dev", "vcb", "nodad"}} {
+				if err := ip(a...); err != nil {
+					res <- "unavailable: " + err.Error()
+					return
+				}
+			}
+			ia, e1 := net.InterfaceByName("vca")
+			ib, e2 := net.InterfaceByName("vcb")
+			nsfd, e3 := syscall.Open(fmt.Sprintf("/proc/self/task/%d/ns/net", syscall.Gettid()), syscall.O_RDONLY|syscall.O_CLOEXEC, 0)
+			if e1 != nil || e2 != nil || e3 != nil {
+				res <- fmt.Sprintf("unavailable: %v %v %v", e1, e2, e3)
+				return
+			}
+			defer syscall.Close(nsfd)
+			var mu sync.Mutex
+			var viol string
+			var wg sync.WaitGroup
+			for g := 0; g < 8; g++ {
+				wg.Add(1)
+				go func(g int) {
+					defer wg.Done()
+					runtime.LockOSThread() // joins the namespace; the thread is thrown away with the goroutine
+					if err := unix.Setns(nsfd, unix.CLONE_NEWNET); err != nil {
+						return
+					}
+					ifi, want := ia, "2001:db8:ca::1/64"
+					if g%2 == 1 {
+						ifi, want = ib, "2001:db8:cb::1/64"
+					}
+					a := NewAddresser()
+					for r := 0; r < 400; r++ {
+						ips, err := a.AddressesByIndex(ifi.Index)
+						ok := err == nil
+						if ok {
+							ok = false
+							for _, x := range ips {
+								if x.Address.String() == want {
+									ok = true
+								}
+								if x.Address.String() == "2001:db8:ca::1/64" && want != x.Address.String() || x.Address.String() == "2001:db8:cb::1/64" && want != x.Address.String() {
+									ok = false
+									break
+								}
+							}
+						}
+						if !ok {
+							mu.Lock()
+							if viol == "" {
+								viol = fmt.Sprintf("AddressesByIndex(%s), called while dumps for the other interface run on other threads, returned %v (error %v), want %s and not the other interface's address", ifi.Name, ips, err, want)
+							}
+							mu.Unlock()
+							return
+						}
+					}
+				}(g)
+			}
+			wg.Wait()
+			res <- viol
+		}()
+		if r := <-res; strings.HasPrefix(r, "unavailable") {
+			c.Tags = append(c.Tags, "real-netlink:unavailable")
+			c.Observed = r
+		} else {
+			c.ImplViolation = r
+		}
+		out.Emit(c)
+	}
+
 	// ---- (7) dumps for several interfaces at once (one Addresser, as when one were shared): every caller gets the
 	// addresses of ITS interface, whatever the index -- long-running hosts with container churn reach indices far
 	// above 65535 -- and a slow dump of one interface never answers another
